@@ -140,7 +140,15 @@ func solveOne(o *Obligation, idx int, cfg SolverCfg) *Result {
 	var lastOut string
 	var errs []string
 	for si, sd := range solvers {
-		ans, out, secs := runSolver(sd, cfg.TimeoutSec, file)
+		timeout := cfg.TimeoutSec
+		if o.Negate {
+			// vacuity probes only need to catch quick contradictions
+			if si > 1 {
+				break
+			}
+			timeout = 2
+		}
+		ans, out, secs := runSolver(sd, timeout, file)
 		r.Seconds += secs
 		switch ans {
 		case "unsat":
